@@ -9,7 +9,7 @@ from ..selftest import Mutant
 
 ID = "C06"
 TECHNIQUE = "CFG dominance (refusal before change), all-exits pairing and who-may-call rules over the write-group template methods (ast)"
-FLOOR = 20
+FLOOR = 35
 PR = "breezy/bzr/pack_repo.py"
 GC = "breezy/bzr/groupcompress_repo.py"
 RP = "breezy/repository.py"
